@@ -101,7 +101,16 @@ func main() {
 				defer wg.Done()
 				r := rand.New(rand.NewSource(seed))
 				b := log.Buf()
-				var mine []uint32 // /24 sub-ranges of my /8 (outside the anchor /16)
+				defer func() {
+					if e := recover(); e != nil {
+						b.Emit(ev{K: "crash", P: 100 + i, Op: fmt.Sprint(e), C: []int{}, IP: []int{}})
+					}
+				}()
+				type sub struct {
+					v    uint32
+					plen int
+				}
+				var mine []sub // sub-ranges of my /8 (outside the anchor /16), prefix lengths 17..32
 				for n := 0; n < *churn; n++ {
 					if i == 0 && r.Intn(12) == 0 { // writer 0 also owns 0.0.0.0/0
 						op := "add"
@@ -120,30 +129,37 @@ func main() {
 						continue
 					}
 					var v uint32
+					plen := 24
 					op := "add"
 					if len(mine) > 0 && r.Intn(5) < 2 {
-						v = mine[r.Intn(len(mine))]
+						m := mine[r.Intn(len(mine))]
+						v, plen = m.v, m.plen
 						if r.Intn(3) > 0 {
 							op = "remove"
 						}
 					} else {
-						v = uint32(10+i)<<24 | uint32(2+r.Intn(200))<<16 | uint32(r.Intn(4))<<8
-						mine = append(mine, v)
+						if r.Intn(3) == 0 {
+							plen = 17 + r.Intn(16) // prefix lengths that may appear for the first time after the switch
+						}
+						v = (uint32(10+i)<<24 | uint32(2+r.Intn(200))<<16 | uint32(r.Intn(4))<<8 | r.Uint32()&0xff) & (uint32(0xffffffff) << uint(32-plen))
+						mine = append(mine, sub{v, plen})
 					}
-					c := &net.IPNet{IP: ip4(v | r.Uint32()&0xff), Mask: net.CIDRMask(24, 32)}
-					b.Emit(ev{K: "wb", P: 100 + i, Op: op, C: bits(v, 24), IP: []int{}})
+					c := &net.IPNet{IP: ip4(v | r.Uint32()&(uint32(1)<<uint(32-plen)-1)), Mask: net.CIDRMask(plen, 32)}
+					b.Emit(ev{K: "wb", P: 100 + i, Op: op, C: bits(v, plen), IP: []int{}})
 					var err error
 					if op == "add" {
 						err = flt.Add(c)
 					} else {
 						err = flt.Remove(c)
 					}
-					b.Emit(ev{K: "we", P: 100 + i, Op: op, C: bits(v, 24), IP: []int{}, Err: err != nil})
+					b.Emit(ev{K: "we", P: 100 + i, Op: op, C: bits(v, plen), IP: []int{}, Err: err != nil})
 					if r.Intn(4) == 0 {
 						time.Sleep(time.Duration(r.Intn(100)) * time.Microsecond)
 					}
 				}
-				touched[i] = mine
+				for _, m := range mine {
+					touched[i] = append(touched[i], m.v)
+				}
 			}(i)
 		}
 		var rg sync.WaitGroup
